@@ -133,6 +133,24 @@ pub fn zoo() -> Vec<ZooSys> {
             init_net: vec![],
         },
         ZooSys {
+            // retransmission on a timer: the same envelope is sent again after it was delivered and/or dropped
+            name: "retransmit",
+            actors: vec![
+                vec![start(0, vec![Send(1, 0), SetTimer(0)]), on(0, Timeout(0), Set(1), vec![Send(1, 0), SetTimer(0)]), on(1, Timeout(0), Set(2), vec![Send(1, 0)]), on(ANY, Msg(1, 1), Keep, vec![CancelTimer(0)])],
+                vec![start(0, vec![]), on(0, Msg(0, 0), Set(1), vec![Send(0, 1)]), on(1, Msg(0, 0), Touch, vec![Send(0, 1)])],
+            ],
+            init_net: vec![],
+        },
+        ZooSys {
+            // the same envelope several times in the initial network, and a re-send triggered by a random choice
+            name: "init-duplicates",
+            actors: vec![
+                vec![start(0, vec![ch("x", vec![0, 1])]), on(0, Random(0), Set(1), vec![Send(1, 0)]), on(0, Random(1), Set(1), vec![Send(1, 0), Send(1, 0)]), on(ANY, Msg(1, 1), Touch, vec![])],
+                vec![start(0, vec![]), on(0, Msg(0, 0), Set(1), vec![]), on(1, Msg(0, 0), Set(2), vec![Send(0, 1)]), on(2, Msg(0, 0), Set(3), vec![])],
+            ],
+            init_net: vec![(0, 1, 0), (0, 1, 0), (1, 0, 1), (1, 0, 1)],
+        },
+        ZooSys {
             name: "rearm",
             actors: vec![
                 vec![start(0, vec![SetTimer(0)]), on(0, Timeout(0), Set(1), vec![SetTimer(0), SetTimer(0)]), on(1, Timeout(0), Set(2), vec![SetTimer(1), CancelTimer(1), SetTimer(0), CancelTimer(0)])],
